@@ -154,9 +154,17 @@ def files_factory(ns):
             it = Interp(eng)
             fs = FS()
             eng.path_local['fs'] = fs
+            eng.path_local['gen_unrolled'] = True
+            # what the two paths held before (a key file is usually re-written over an older one)
+            t = T(eng, ns=ns)
+            pre = {sfx: t.any('pre' + sfx, [('missing', None), ('bytes', t.raw_bytes('old' + sfx, 36))]) for sfx in ('.pri', '.pub')}
+            for sfx, v in pre.items():
+                fs.files['mykey' + sfx] = v
             g = run_call(it, MC.gen_and_write_keys, ['mykey'])
             obs, structural = [], []
-            mk = lambda mm: dict(scenario='files')
+            seed_of = lambda mm: conc(mm, g[1][0].raw).hex() if is_ret(g) and isinstance(g[1], tuple) and g[1] and isinstance(g[1][0], KeyObj) and g[1][0].raw.kind == 'raw' else None
+            pre_of = lambda mm, v: (lambda x: None if x is None else x.hex())(conc(mm, v))
+            mk = lambda mm: dict(scenario='files', seed=seed_of(mm), pre={sfx: pre_of(mm, v) for sfx, v in pre.items()})
             if not is_ret(g) or not isinstance(g[1], tuple) or len(g[1]) != 2:
                 structural.append('gen_and_write_keys returns (private, public)')
             else:
@@ -208,14 +216,35 @@ def concrete(case):
             d = tempfile.mkdtemp(prefix='cct-verif-keys-', dir='/var/tmp')
             try:
                 base = os.path.join(d, 'mykey')
-                priv, pub = MC.gen_and_write_keys(base)
-                p2, u2 = C.keyfiles_to_keys(base)
-                if not C.PrivateKey.is_equivalent_to(priv, p2) or not C.PublicKey.is_equivalent_to(pub, u2):
-                    probs.append('key files do not load back as equivalent keys')
+                for sfx, hx in (case.get('pre') or {}).items():
+                    if hx is not None:
+                        with open(base + sfx, 'wb') as fo:
+                            fo.write(bytes.fromhex(hx))
+                if case.get('seed'):
+                    # the key the solver chose: generation is the environment (any 32 bytes are a valid seed)
+                    from cryptography.hazmat.primitives.asymmetric import ed25519 as _ed
+                    seed = bytes.fromhex(case['seed'])
+                    oldgen = _ed.Ed25519PrivateKey.__dict__['generate']
+                    _ed.Ed25519PrivateKey.generate = classmethod(lambda cls: cls.from_private_bytes(seed))
+                    try:
+                        priv, pub = MC.gen_and_write_keys(base)
+                    finally:
+                        _ed.Ed25519PrivateKey.generate = oldgen
+                else:
+                    priv, pub = MC.gen_and_write_keys(base)
+                try:
+                    p2, u2 = C.keyfiles_to_keys(base)
+                    if not C.PrivateKey.is_equivalent_to(priv, p2) or not C.PublicKey.is_equivalent_to(pub, u2):
+                        probs.append('key files do not load back as equivalent keys')
+                except Exception as e:
+                    probs.append(f'the key files just written do not load: {type(e).__name__}: {e}')
                 if C.PublicKey.to_bytes(priv.public_key()) != C.PublicKey.to_bytes(pub):
                     probs.append('public key written is not the public key of the private key')
-                if C.keyfiles_to_bytes(base) != (C.PrivateKey.to_bytes(priv), C.PublicKey.to_bytes(pub)):
-                    probs.append('keyfiles_to_bytes does not return the raw values')
+                try:
+                    if C.keyfiles_to_bytes(base) != (C.PrivateKey.to_bytes(priv), C.PublicKey.to_bytes(pub)):
+                        probs.append('keyfiles_to_bytes does not return the raw values')
+                except Exception as e:
+                    probs.append(f'keyfiles_to_bytes failed on the files just written: {type(e).__name__}')
             finally:
                 import shutil
                 shutil.rmtree(d, ignore_errors=True)
@@ -305,6 +334,6 @@ def units(tier):
 
 
 BOUNDS = dict(bytes='symbolic byte strings of 0..34 bytes (so 31, 32, 33 are inside), and values of any JSON kind / type-confusion pool', hex='strings <= 66 characters over all of Unicode and non-strings (incl. bytes holding valid hex)',
-              files='one generated key pair written to and loaded from the in-memory file system')
+              files='one generated key pair (the 32 private bytes symbolic) written to and loaded from the in-memory file system, each of the two paths missing or holding 0..36 arbitrary older bytes')
 OUTSIDE = 'that the derived public key and the signatures equal those RFC 8032 defines for the seed: that is SHA-512 and curve arithmetic inside the crypto library, far beyond a solver budget and not repository code; it is only spot-checked concretely against the RFC test vectors (coverage.rfc8032_known_answers)'
 ASSUMPTIONS = ['crypto boundary contract: from_*_bytes accept exactly 32 bytes; *_bytes(Raw, Raw) return them; Pub is a function of the private bytes (injective)']
